@@ -593,6 +593,29 @@ def r41(ctx: Ctx) -> RuleReport:
             if (f"{v}.startswith(':')", False) in facts:
                 adds = True
     rep.oblige('_parse_triples adds the colon exactly when it is absent', adds, '', pt.loc(), key='_parse_triples restores colon')
+    # a flag carried from one conjunct to the next (was the `^` glued to the role?) is decided anew for every conjunct
+    from ..cfg import assigned_names
+    for loop in [n for n in walk_local(pt.node) if isinstance(n, (ast.While, ast.For))]:
+        head = cfg.node_of(loop)
+        flags = {}
+        for n in ast.walk(loop):
+            if isinstance(n, ast.Assign) and isinstance(n.targets[0], ast.Name) and isinstance(n.value, ast.Constant) and isinstance(n.value.value, bool):
+                flags.setdefault(n.targets[0].id, set()).add(n.value.value)
+        for flag, vals in sorted(flags.items()):
+            reads = [nd for nd in cfg.nodes if nd.kind == 'cond' and any(isinstance(x, ast.Name) and x.id == flag for x in ast.walk(nd.ast))
+                     and any(x is nd.ast for x in ast.walk(loop))]
+            if not reads or True not in vals:
+                continue
+            writes = {nd.id for nd in cfg.nodes if nd.kind == 'stmt' and flag in assigned_names(nd.ast)}
+            rd = reads[0]
+            stale = None
+            for lab in ('T', 'F'):
+                stale = stale or cfg.path_avoiding([(rd.id, lab)], {head}, lambda nd: nd.id in writes)
+            key = f'penman._parse:_parse_triples: the flag `{flag}` is set again for every conjunct'
+            rep.add(key, pt.loc(rd.ast), 'violation' if stale else 'ok',
+                    f'`{flag}` is read for every conjunct but a path continues the loop without assigning it ('
+                    + ' -> '.join(repr(cfg.nodes[x]) for x in stale[-4:])[:200] + '): once set it stays set, so how an earlier separator was written '
+                    'changes how a later role is read (a role that itself starts with "^" loses its first character)' if stale else '')
     gi = ctx.repo.func('penman.graph', 'Graph.__init__')
     uses = any(isinstance(n, ast.Call) and isinstance(n.func, ast.Name) and n.func.id == '_ensure_colon'
                for n in walk_local(gi.node))
